@@ -147,7 +147,7 @@ def int_bitop(lib, ctx, op, a, b, ta, tb):
                 ctx.pc.append(z3.Implies(z3.And(x >= 0, x < bt.pow2(n), v >= 0, n >= 0), res == x + v * bt.pow2(n)))
                 note(ctx, res, "setbit", (x, v), n)
                 return res
-        return e.uf("bor", I, I, I)(ta, tb)
+        raise EngineLimit("bitwise or of general operands")  # (pyvc.ext_expr turns this into its uninterpreted BITOR)
     if isinstance(op, ast.BitAnd):
         for x, y in ((ta, tb), (tb, ta)):
             r = info(ctx, y)
